@@ -140,24 +140,22 @@ def check_chains(case, acc):
 
 
 def fam_chains(arg):
-    tier, prefixes = arg
+    tier, units = arg
     acc = Acc('chains')
     max_len = 4 if tier == 'quick' else 5
-    for prefix in prefixes:
-        for idx in gx.chains(14, prefix, max_len if len(prefix) > 1 else 1):
+    for unit in units:
+        idx = None
+        for idx in gx.unit_chains(14, unit, max_len):
             acc.cases += 1
             _, model = check_chains({'ops': list(idx)}, acc)
             if model is not None and not left_nested(model):
                 acc.nontrivial += 1
             if len(idx) <= 3:
                 acc.outcome(repr(model))
-        acc.sample({'text': gx.chain_text([gx.OPS14[i] for i in prefix] + ['**']), 'decorated': gx.decorated_chain_text([gx.OPS14[i] for i in prefix], 0, 4)})
+        if idx is not None:
+            ops = [gx.OPS14[i] for i in idx]
+            acc.sample({'text': gx.chain_text(ops), 'decorated': gx.decorated_chain_text(ops, len(ops) // 2, 4 + len(ops) % 3)})
     return acc.result()
-
-
-def chain_prefixes():
-    """Work units: (i,) = the one chain of length 1 with operator i; (i, j) = every chain of length >= 2 starting i, j."""
-    return [(i,) for i in range(14)] + [(i, j) for i in range(14) for j in range(14)]
 
 
 def chains_expected(max_len):
@@ -180,23 +178,21 @@ def check_levels(case, acc):
 
 
 def fam_levels(arg):
-    tier, prefixes = arg
+    tier, units = arg
     acc = Acc('levels')
     max_len = 6 if tier == 'quick' else 7
-    for prefix in prefixes:
-        for idx in gx.chains(7, prefix, max_len if len(prefix) > 1 else 1):
+    for unit in units:
+        idx = None
+        for idx in gx.unit_chains(7, unit, max_len):
             acc.cases += 1
             _, model = check_levels({'levels': list(idx)}, acc)
             if model is not None and not left_nested(model):
                 acc.nontrivial += 1
             if len(idx) <= 4:
                 acc.outcome(repr(model))
-        acc.sample({'text': gx.chain_text(level_ops(list(prefix) + [0, 6, 2]))})
+        if idx is not None:
+            acc.sample({'text': gx.chain_text(level_ops(idx))})
     return acc.result()
-
-
-def level_prefixes():
-    return [(i,) for i in range(7)] + [(i, j) for i in range(7) for j in range(7)]
 
 
 # ---------------------------------------------------------------------------------------------------------------------
@@ -261,27 +257,34 @@ def check_soup(case, acc):
 
 
 def fam_soup(arg):
-    tier, prefixes = arg
+    tier, units = arg
     acc = Acc('soup')
     max_len = 5 if tier == 'quick' else 6
-    for prefix in prefixes:
-        for idx in gx.chains(16, prefix, max_len if len(prefix) > 1 else 1):
+    for unit in units:
+        idx = accepted = None
+        for idx in gx.unit_chains(16, unit, max_len):
             acc.cases += 1
             kind = check_soup({'tokens': list(idx)}, acc)
             if kind == 'ok':
                 acc.nontrivial += 1
+                accepted = idx
                 if len(idx) <= 4:
                     acc.outcome(idx)
-        acc.outcome(('prefix', prefix))
-        acc.sample({'text': ' '.join(gx.SOUP[i] for i in list(prefix) + [0])})
+        acc.outcome(('unit', tuple(unit)))
+        for pick in (accepted, idx):
+            if pick is not None:
+                acc.sample({'text': ' '.join(gx.SOUP[i] for i in pick), 'reference': rx.parse_outcome(' '.join(gx.SOUP[i] for i in pick))[0]})
     return acc.result()
 
 
-def soup_prefixes():
-    return [(i,) for i in range(16)] + [(i, j) for i in range(16) for j in range(16)]
-
-
 # ---------------------------------------------------------------------------------------------------------------------
+
+
+def _shards(units, nlong):
+    """The short units one per shard (they come first, so the first recorded violation is a smallest one), the long
+    units split into nlong contiguous shards."""
+    short = [[u] for u in units if u[0] == 's']
+    return short + split([u for u in units if u[0] == 'l'], nlong)
 
 
 def families(tier):
@@ -293,16 +296,16 @@ def families(tier):
     slen = 5 if quick else 6
     tree_units = [u for n in range(tmax + 1) for u in gx.tree_units(n)]
     return [
-        Family('chains', fam_chains, [(tier, p) for p in split(chain_prefixes(), 105)],
+        Family('chains', fam_chains, [(tier, u) for u in _shards(gx.chain_units(14), 98)],
                f'every chain of 1..{clen} operators over the 14 binary operators; per chain: spaced, compact and {_N_DECO} decorations x every operand position ({ctexts} texts)',
                expected=ccases),
-        Family('levels', fam_levels, [(tier, p) for p in split(level_prefixes(), 56)],
+        Family('levels', fam_levels, [(tier, u) for u in _shards(gx.chain_units(7), 49)],
                f'every chain of 1..{llen} operators over one operator per precedence level (7 levels, the two operators of a level alternating by position)',
                expected=sum(7 ** k for k in range(1, llen + 1))),
         Family('trees', fam_trees, [(tier, u) for u in split(tree_units, 96 if quick else 224)],
                f'every tree with <= {tmax} internal nodes over 7 binary levels, ! and -, group, call/1, call/2, leaves a 1 \'s\'; minimal and full parentheses',
                expected=sum(gx.tree_count(n) for n in range(tmax + 1))),
-        Family('soup', fam_soup, [(tier, p) for p in split(soup_prefixes(), 136)],
+        Family('soup', fam_soup, [(tier, u) for u in _shards(gx.chain_units(16), 128)],
                f'every sequence of 1..{slen} tokens over {len(gx.SOUP)} tokens joined by single spaces (+ compact form when lexically unambiguous)',
                expected=sum(16 ** k for k in range(1, slen + 1))),
     ]
